@@ -44,18 +44,20 @@ class Ctx:
             self._crates[cfg] = c
         return self._crates[cfg]
 
-    def fixtures(self):
+    def fixtures(self, cfg='dbg'):
         if self._fix is None:
-            path, dt = extract.extract_fixtures()
+            self._fix = {}
+        if cfg not in self._fix:
+            path, dt = extract.extract_fixtures(cfg)
             self.extract_s += dt
             try:
-                self._fix = Crate(path)
+                self._fix[cfg] = Crate(path)
             finally:
                 try:
                     os.remove(path)
                 except OSError:
                     pass
-        return self._fix
+        return self._fix[cfg]
 
 
 def run(prop, tier, seed, repo):
